@@ -24,9 +24,9 @@ RULE = ("configurations of (base, Moebius map, rotation, translation, scale, k, 
 BOUND = {"quick": "deviation bound d=2 around the centre of 2 Voronoi bases (+1 seeded); all sub-tissues of a 7-cell base at k in {0,1,2,5}; lattices at 12 rotations",
          "thorough": "d=3 on one base, d=2 on three; all sub-tissues of 11-cell base; lattices at 48 rotations"}
 ASSUMPTIONS = ["a two-point interface is the straight segment through its two points",
-               "fit budget (L2): 1e-9 for arcs turning >= 0.1 rad (dlite) or any curved arc (taubinSVD); 5e-3 for flatter arcs and straight lines; translations <= 10 tissue sizes",
+               "fit budget (L2): taubinSVD 1e-9 on any curved arc; dlite 1e-7 on arcs turning >= 0.1 rad (leastsq termination tolerance), 5e-3 on flatter arcs; collinear points exact; translations <= 10 tissue sizes",
                "L1 uses the library's public calculate_circle_center for the centre (fit accuracy is judged separately by L2)"]
-REQUIRED_TAGS = {"all": ["rows>0", "straight", "curved", "two_point", "ignore_four", "taubin", "fourfold", "axis_aligned"]}
+REQUIRED_TAGS = {"all": ["rows>0", "straight", "curved", "two_point", "ignore_four", "taubin", "fourfold", "axis_aligned", "lens"]}
 
 L1_TOL = 1e-11
 
@@ -38,7 +38,8 @@ def fit_budget(fit, turning, npts, straight):
         return 5e-3
     if fit == "taubinSVD":
         return 1e-9 if turning >= 1e-3 else 5e-3
-    return 1e-9 if turning >= 0.1 else 5e-3
+    # dlite = scipy leastsq with its default termination tolerances (1.49e-8, relative): worst observed on exact arcs 7e-9
+    return 1e-7 if turning >= 0.1 else 5e-3
 
 
 def unit(z):
@@ -321,6 +322,7 @@ LATTICES = {
     "fan5": lambda: T.polygons_at(fan_polys(5)),
     "fan6": lambda: T.polygons_at(fan_polys(6)),
     "fan4": lambda: T.polygons_at(fan_polys(4)),
+    "lens": lambda: T.lens_at(0.8),
 }
 _LAT = {}
 
@@ -352,8 +354,11 @@ class Lattices(ProductSystem):
     def eval_config(self, base, cfg):
         at = lattice(base)
         cm = T.CMap([T.rot(cfg["rot"])]) if cfg["rot"] else T.CMap()
+        if base == "lens" and cfg["k"] == 0:
+            # with two points per interface the two sides of the lens are the same pair of vertices: not a planar mesh
+            return {"viol": [], "tags": ["lens_k0_outside"], "cls": "lens-k0", "outdom": True, "obs": None}
         viol, known, tags, obs = evaluate_matrix(at, cfg["k"], cm, cfg["fit"], cfg["ign"], want_obs=True)
-        tags = list(tags) + ["straight"]
+        tags = list(tags) + (["straight"] if base != "lens" else ["lens"])
         if cfg["ign"]:
             tags.append("ignore_four")
         if cfg["k"] == 0:
@@ -374,8 +379,8 @@ def build(tier, seed):
     if tier == "quick":
         return [Geometry(["v5x5", "v4x4p%d" % (seed + 1)], 2, 12, seed),
                 SubTissues("v5x4", [0, 1, 2, 5], [["id"], ["m", 0.05, 0.02]]),
-                Lattices(["square4x4", "brick4x4", "hex3x3", "fan5", "fan6", "fan4"], 12)]
+                Lattices(["square4x4", "brick4x4", "hex3x3", "fan5", "fan6", "fan4", "lens"], 12)]
     return [Geometry(["v5x5"], 3, 24, seed),
             Geometry(["v6x5", "v6x6", "v5x4p%d" % (seed + 1)], 2, 48, seed),
             SubTissues("v5x5", [0, 1, 2, 5], [["id"], ["m", 0.05, 0.02], ["mc", 0.12, 0.05]]),
-            Lattices(["square4x4", "brick4x4", "hex3x3", "fan5", "fan6", "fan4"], 48)]
+            Lattices(["square4x4", "brick4x4", "hex3x3", "fan5", "fan6", "fan4", "lens"], 48)]
